@@ -230,7 +230,7 @@ func runCase(r *mon.Run, idx int, c encCase) {
 			}
 			rec, log := ax.Record(ids)
 			// the kind of reader the caller holds the file in rotates too
-			kind := ax.SourceKinds[rng.Intn(len(ax.SourceKinds))]
+			kind := ax.SourceKindsOwnFiles[rng.Intn(len(ax.SourceKindsOwnFiles))]
 			if big {
 				kind = []string{"bytes.Reader", "bufio4095", "os.File"}[rng.Intn(3)]
 			}
